@@ -43,11 +43,39 @@ def register_param_lens(body):
             PARAM_LEN[(body.path, i)] = int(m.group(1))
 
 
+def slice_of(x):
+    """(X, a, b) when x is the sub-slice X[a..b] (an index by a half-open range), else None"""
+    x = P.norm(x)
+    if isinstance(x, tuple) and len(x) == 3 and x[0] == "idx" and isinstance(x[2], tuple) and circ.range_expr(x[2]) is not None:
+        r = circ.range_expr(x[2])
+        return x[1], P.norm(r[0]), P.norm(r[1])
+    if isinstance(x, tuple) and len(x) == 3 and x[0] == "idx" and isinstance(x[2], tuple) and len(x[2]) == 4 and x[2][0] == "adt" and x[2][1].endswith("ops::range::RangeTo"):
+        return x[1], ("c", 0, None), P.norm(dict(x[2][3]).get("end"))    # X[..b]
+    return None
+
+
+def _span(a, b):
+    """b - a when that is evident: both constants, or b written as a + c / c + a"""
+    ca, cb = P.const_of(a), P.const_of(b)
+    if ca is not None and cb is not None:
+        return cb - ca
+    if ca == 0:
+        return _k(b)
+    if isinstance(b, tuple) and len(b) == 4 and b[0] == "bin" and b[1] == "Add":
+        for x, c in ((b[2], b[3]), (b[3], b[2])):
+            if P.norm(x) == a:
+                return P.const_of(c) if P.const_of(c) is not None else P.norm(c)
+    return None
+
+
 def known_len(x):
     """length fixed by construction, or None"""
     x = P.norm(x)
     if not isinstance(x, tuple) or not x:
         return None
+    sl = slice_of(x)
+    if sl is not None:
+        return _span(sl[1], sl[2])
     if x[0] == "param" and (x[1], x[2]) in PARAM_LEN:
         return PARAM_LEN[(x[1], x[2])]
     if x[0] == "fld" and x[2] == "elements":
@@ -289,6 +317,11 @@ def _canon1(nest, t):
         if d.range is not None:
             return v
         if len(d.colls) == 1:
+            sl = slice_of(d.colls[0])
+            if sl is not None:
+                # element p of X[a..b] is X[a + p]
+                a = _canon(nest, sl[1]) if isinstance(sl[1], tuple) else sl[1]
+                return ("idx", _canon(nest, sl[0]), v if P.const_of(a) == 0 else ("bin", "Add", a, v))
             return ("idx", _canon(nest, d.colls[0]), v)
         # elem of a zip as a whole is a tuple; Frame.elem already splits it, so this is not reached for zips
         return t
